@@ -728,3 +728,47 @@ Section RT.
     lex is_space is_letter is_digit (render_dq ws) = ROk (map dq_tok ws).
   Proof. intros ws Hp. unfold lex. apply lex_all_render; [exact Hp | lia]. Qed.
 End RT.
+
+(* ------------------------------------------------------------------ in(..): all members alike *)
+Section InGlue.
+  Variables is_letter is_digit is_number : N -> bool.
+  Notation ftext := (fulltext is_letter is_digit is_number).
+
+  (* e is what the stand-alone value filter (parseFulltextSearchFilter with type t) makes of some
+     token sequence *)
+  Definition made_by (t : N) (e : tok) : Prop := exists seg seg', ftext t seg = ROk (e, seg').
+
+  Definition or_members (es : list tok) : list tok := flat_map (fun e => [TOr; e]) es.
+
+  Lemma in_loop_shape : forall f t ts acc l ts',
+    in_loop is_letter is_digit is_number f t ts acc = ROk (l, ts') ->
+    exists es, l = acc ++ or_members es /\ Forall (made_by t) es.
+  Proof.
+    induction f as [|f IH]; intros t ts acc l ts' H; [discriminate|].
+    cbn [in_loop] in H. destruct (is_kw kw_comma (cur ts)).
+    - destruct (ftext t (tl ts)) as [[e ts1]| | |] eqn:E; cbn [rbind] in H; try discriminate.
+      apply IH in H. destruct H as [es [Hl Hf]].
+      exists (e :: es). split.
+      + rewrite Hl. rewrite <- app_assoc. reflexivity.
+      + constructor; [exists (tl ts), ts1; exact E | exact Hf].
+    - inversion H; subst. exists []. split; [rewrite app_nil_r; reflexivity | constructor].
+  Qed.
+
+  Lemma filter_in_shape : forall t ts l ts',
+    filter_in is_letter is_digit is_number t ts = ROk (l, ts') ->
+    exists e1 es, l = TLP :: e1 :: or_members es ++ [TRP] /\ Forall (made_by t) (e1 :: es).
+  Proof.
+    intros t ts l ts' H. unfold filter_in in H.
+    destruct (negb (is_kw kw_lp (cur ts))); [discriminate|].
+    destruct (is_kw kw_rp (cur (tl ts))); [discriminate|].
+    destruct (ftext t (tl ts)) as [[e1 ts2]| | |] eqn:E; cbn [rbind] in H; try discriminate.
+    destruct (in_loop is_letter is_digit is_number (S (length ts2)) t ts2 [e1])
+      as [[es0 ts3]| | |] eqn:E2; cbn [rbind] in H; try discriminate.
+    destruct (negb (is_kw kw_rp (cur ts3))); [discriminate|].
+    inversion H; subst.
+    apply in_loop_shape in E2. destruct E2 as [es [Hl Hf]].
+    exists e1, es. split.
+    - rewrite Hl. reflexivity.
+    - constructor; [exists (tl ts), ts2; exact E | exact Hf].
+  Qed.
+End InGlue.
